@@ -79,6 +79,15 @@ int main(int argc, char** argv)
 		CALL("gtx pow/sqrt/mod/factorial"); use(glm::pow(x % 40, (unsigned)(rnd() % 6))); if (x >= 0) use(glm::sqrt(x)); use(glm::sqrt(u)); if (y > 0 && y < 0x3fffffff) use(glm::mod(x, y)); use(glm::factorial(x & 7));
 		float f = i < (int)(sizeof floats / sizeof floats[0]) ? floats[i] : (float)((double)(rnd() >> 11) / 9007199254740992.0 - 0.5) * (i % 2 ? 10.f : 4e9f);
 		CALL("roundEven(float)"); if (std::fabs(f) < 2147483648.f) use(glm::roundEven(f)); CALL("iround/uround"); if (f >= 0 && f < 2147483520.f) { use(glm::iround(f)); use(glm::uround(f)); }
+		// common functions that document no precondition: every float and double is in the domain, extreme magnitudes, infinities and NaN included
+		{ static const float wide[] = { 3.0e9f, -3.0e9f, 2147483648.f, -2147483904.f, 4294967296.f, 1e20f, -1e20f, 3.4028234e38f, -3.4028234e38f, INFINITY, -INFINITY, NAN, 8388609.f, 16777217.f * 3.f };
+		  float wf = (i % 3 == 0) ? wide[(i / 3) % (int)(sizeof wide / sizeof wide[0])] : f; double wd = (i % 2) ? (double)wf * 1e6 : (double)wf; if (i % 7 == 0) wd = 2147483649.0 + i;
+		  CALL("floor/ceil/trunc/round/fract/mod (any float)"); use(glm::floor(wf) != 0.f); use(glm::ceil(wf) != 0.f); use(glm::trunc(wf) != 0.f); use(glm::round(wf) != 0.f); use(glm::fract(wf) != 0.f); use(glm::mod(wf, 2.f) != 0.f); use(glm::floor(wd) != 0.0); use(glm::round(wd) != 0.0); use(glm::fract(wd) != 0.0); use(glm::mod(wd, 2.0) != 0.0);
+		  { glm::vec4 v(wf, -wf, wf * 0.5f, f); use(glm::floor(v).x != 0.f); use(glm::ceil(v).y != 0.f); use(glm::trunc(v).z != 0.f); use(glm::round(v).x != 0.f); use(glm::fract(v).y != 0.f); use(glm::mod(v, 2.f).x != 0.f); glm::dvec3 w(wd, -wd, wd * 0.5); use(glm::floor(w).x != 0.0); use(glm::round(w).y != 0.0); use(glm::fract(w).z != 0.0); }
+		  CALL("abs/sign/min/max/clamp/step/mix/isnan/isinf (any float)"); use(glm::abs(wf) != 0.f); use(glm::sign(wf) != 0.f); use(glm::min(wf, f) != 0.f); use(glm::max(wf, f) != 0.f); use(glm::clamp(wf, -1.f, 1.f) != 0.f); use(glm::step(f, wf) != 0.f); use(glm::mix(f, wf, 0.5f) != 0.f); use(glm::isnan(wf)); use(glm::isinf(wf)); use(glm::sign(wd) != 0.0); use(glm::isnan(wd));
+		  { glm::vec4 v(wf, -wf, wf * 0.5f, f); use(glm::abs(v).x != 0.f); use(glm::sign(v).y != 0.f); use(glm::min(v, glm::vec4(f)).x != 0.f); use(glm::clamp(v, -1.f, 1.f).z != 0.f); use(glm::isnan(v).x); use(glm::isinf(v).y); use(glm::fmin(wf, f, -wf) != 0.f); use(glm::fmax(wf, f) != 0.f); use(glm::fclamp(wf, -1.f, 1.f) != 0.f); }
+		  CALL("texture wrap: clamp/repeat/mirrorClamp/mirrorRepeat (any float)"); use(glm::clamp(wf) != 0.f); use(glm::repeat(wf) != 0.f); use(glm::mirrorClamp(wf) != 0.f); use(glm::mirrorRepeat(wf) != 0.f); use(glm::clamp(wd) != 0.0); use(glm::repeat(wd) != 0.0); use(glm::mirrorClamp(wd) != 0.0); use(glm::mirrorRepeat(wd) != 0.0);
+		  { glm::vec4 v(wf, -wf, wf * 0.5f, f); use(glm::clamp(v).x != 0.f); use(glm::repeat(v).y != 0.f); use(glm::mirrorClamp(v).z != 0.f); use(glm::mirrorRepeat(v).x != 0.f); glm::dvec2 w(wd, -wd); use(glm::mirrorRepeat(w).x != 0.0); use(glm::repeat(w).y != 0.0); } }
 		CALL("floatBitsToInt/intBitsToFloat"); use(glm::floatBitsToInt(f)); use(glm::floatBitsToUint(f)); use(glm::intBitsToFloat(x) != 0.f); use(glm::uintBitsToFloat(u) != 0.f);
 		CALL("frexp/ldexp/modf"); { int e; use(glm::frexp(f, e)); use(e); use(glm::ldexp(f, x % 100)); float ip; use(glm::modf(f, ip)); }
 		CALL("packUnorm/packSnorm"); { glm::vec4 v(f, -f, f * 0.001f, 0.5f); use(glm::packSnorm1x16(-f)); use(glm::packSnorm1x8(-f)); use(glm::packUnorm1x16(f)); use(glm::packSnorm1x16(-0.75f)); use(glm::packSnorm1x8(-0.3f)); use(glm::packUnorm4x8(v)); use(glm::packSnorm4x8(v)); use(glm::packUnorm2x16(glm::vec2(v))); use(glm::packSnorm2x16(glm::vec2(v))); use(glm::packUnorm1x8(f)); use(glm::packSnorm1x16(f)); use(glm::packUnorm3x10_1x2(v)); use(glm::packSnorm3x10_1x2(v)); use(glm::packUnorm1x5_1x6_1x5(glm::vec3(v))); use(glm::packUnorm2x4(glm::vec2(v))); }
